@@ -1678,6 +1678,15 @@ func c13HandleIdentityImmutable(p *Prog, r *Report, rule string) {
 		info := pkg.TypesInfo
 		bad := ""
 		lits := 0
+		// the handle type (pinned name tx) and its id: the string field(s) of the handle
+		isHandle := func(t types.Type) bool {
+			ts := strings.TrimPrefix(t.String(), "*")
+			i := strings.LastIndex(ts, "/")
+			if j := strings.LastIndex(ts, "."); j > i {
+				return strings.HasSuffix(ts[:j], pk) && canonTypeName(pk+"."+ts[j+1:]) == pk+".tx"
+			}
+			return false
+		}
 		for _, k := range sortedFuncKeys(p) {
 			fi := p.Funcs[k]
 			if fi.Pkg != pkg || fi.Decl.Body == nil {
@@ -1687,14 +1696,21 @@ func c13HandleIdentityImmutable(p *Prog, r *Report, rule string) {
 				switch st := x.(type) {
 				case *ast.AssignStmt:
 					for _, l := range st.Lhs {
-						if sel, ok := ast.Unparen(l).(*ast.SelectorExpr); ok && sel.Sel.Name == "id" {
-							if tv, ok := info.Types[sel.X]; ok && strings.HasSuffix(strings.TrimPrefix(tv.Type.String(), "*"), pk+".tx") {
+						if sel, ok := ast.Unparen(l).(*ast.SelectorExpr); ok {
+							fv, isF := info.Uses[sel.Sel].(*types.Var)
+							if !isF || !fv.IsField() {
+								continue
+							}
+							if bt, isB := fv.Type().Underlying().(*types.Basic); !isB || bt.Kind() != types.String {
+								continue
+							}
+							if tv, ok := info.Types[sel.X]; ok && isHandle(tv.Type) {
 								bad = p.pos(st)
 							}
 						}
 					}
 				case *ast.CompositeLit:
-					if tv, ok := info.Types[st]; ok && strings.HasSuffix(tv.Type.String(), pk+".tx") {
+					if tv, ok := info.Types[st]; ok && isHandle(tv.Type) {
 						lits++
 					}
 				}
